@@ -106,7 +106,7 @@ def _c10(ctx):
     # binary array I/O lives in Utility.hpp but is not text parsing (it is decided under C13)
     from .rules import tool
     ctx.exclude_q = {'GeographicLib::Utility::readarray', 'GeographicLib::Utility::writearray'}
-    return _exc_rules(ctx, 'C10') + [tool.rule_TOOL(ctx)]
+    return _exc_rules(ctx, 'C10') + [tool.rule_TOOL(ctx), tool.rule_S1(ctx)]
 
 
 def _c18(ctx):
@@ -210,7 +210,7 @@ def _c09(ctx):
 
 def _c15(ctx):
     from .rules import tab
-    return [_t1(ctx, 'aux', None, 450), tab.rule_T2(ctx)]
+    return [_t1(ctx, 'aux', None, 450), tab.rule_T2(ctx), tab.rule_F1(ctx)]
 
 
 def _c08(ctx):
